@@ -18,6 +18,7 @@ from pest.grammar.rule import ATOMIC
 from pest.grammar.rule import COMPOUND
 from pest.grammar.rule import SILENT
 from pest.grammar.rule import SILENT_ATOMIC
+from pest.grammar.rule import BuiltInRule
 from pest.grammar.rule import SkipRule
 
 from .expression import Expression
@@ -102,6 +103,11 @@ class Optimizer:
                 continue
 
             for name, rule in rules.items():
+                if isinstance(rule, BuiltInRule):
+                    # Built-in rules are shared by every parser in the process.
+                    # Grammar rules that use them get optimized copies inlined.
+                    continue
+
                 if step.atomic_only and not self._is_atomic(rule, rules):
                     continue
 
